@@ -87,8 +87,19 @@ func (p *c28Pool) get() *c28Proc {
 	}
 	ef.Close()
 	p.spawn.Add(1)
-	return &c28Proc{cmd: cmd, in: bufio.NewWriterSize(inw, 1<<16), out: bufio.NewReaderSize(outr, 1<<16), dir: dir, errPath: errPath,
+	pr := &c28Proc{cmd: cmd, in: bufio.NewWriterSize(inw, 1<<16), out: bufio.NewReaderSize(outr, 1<<16), dir: dir, errPath: errPath,
 		closeFn: func() { inw.Close() }}
+	// handshake: the start of the process (slow on a loaded machine) must not
+	// count against the watchdog of the first case
+	pr.in.WriteString("{\"part\":\"ping\"}\n")
+	if err := pr.in.Flush(); err == nil {
+		if _, err := pr.out.ReadBytes('\n'); err != nil {
+			log, _ := os.ReadFile(errPath)
+			fmt.Fprintf(os.Stderr, "c28: child did not start: %v\n%s\n", err, log)
+			os.Exit(2)
+		}
+	}
+	return pr
 }
 
 func (p *c28Pool) put(pr *c28Proc) {
